@@ -329,7 +329,16 @@ def r6_decision_on_the_node_lookup_serves(ctx):
     c01.r3_walk_integrity(Renamed(ctx, "C04.R6", "one walk decides the node for success and for the 404/405 answer alike: every path out of the exhausted walk takes the trailing-wildcard step before any method table is read"))
 
 
-RULES = [("C04.R6", r6_decision_on_the_node_lookup_serves), ("C04.R5", r5_allow_reaches_the_wire), ("C04.R1", r1_decision), ("C04.R2", r2_allow_truthful), ("C04.R3", r3_allow_only_on_405), ("C04.R4", r4_no_handler)]
+def r7_method_keys_agree(ctx):
+    """`405 when the path exists but the method is not served`, `Allow lists exactly the methods served`: registration and lookup key the
+    per-node method table with the same normalisation of the method name.  This is C01.R4, re-evaluated here (adversary change C04-L:
+    insert stopped upper-casing, so an endpoint registered as `get` sat under a key no request produces and was advertised in Allow)."""
+    from . import c01
+    from .lib_c01 import Renamed
+    c01.r4_key_normalisation(Renamed(ctx, "C04.R7", "the method names the 404/405 decision and the Allow header are computed from are keyed identically by insert and lookup_route"))
+
+
+RULES = [("C04.R7", r7_method_keys_agree), ("C04.R6", r6_decision_on_the_node_lookup_serves), ("C04.R5", r5_allow_reaches_the_wire), ("C04.R1", r1_decision), ("C04.R2", r2_allow_truthful), ("C04.R3", r3_allow_only_on_405), ("C04.R4", r4_no_handler)]
 
 _ANY = "        if node.methods.values().any(|handlers| {\n            find_handler_matching_version(handlers, version).is_some()\n        }) {"
 _LOOP = "            for (allowed, handlers) in node.methods.iter() {\n                // Only list methods that are actually served at this version.\n                if find_handler_matching_version(handlers, version).is_some() {\n                    err.add_header(http::header::ALLOW, allowed)\n                        .expect(\"method should be a valid allow header\");\n                }\n            }"
